@@ -57,7 +57,7 @@ PROPS["C18"] = dict(
     design_ref="4/C18",
     assumptions=["entry creation times are non-zero (every caller passes a real clock)", "keys are at least as long as the locus", "when no bucket holds more than the per-bucket minimum any victim is accepted, only the capacity bound is required"],
     subs=[
-        R("C18.model", "kad", "TestC18Model", 4000, 240000, steps=40),
+        R("C18.model", "kad", "TestC18Model", 20000, 400000, steps=40),
         P("C18.exhaustive", "kad", "TestC18Exhaustive"),
     ],
 )
@@ -300,6 +300,7 @@ PROPS["C14"] = dict(
     assumptions=["a data race is attributed to the library when a stack of the report has a frame under go.brendoncarroll.net/p2p/"],
     subs=[
         R("C14.contention_workloads", "swarms", "TestC14Stress", 48, 1200, race=True, shrink=5, quick=dict(checks=48, shards=6, timeout=900)),
+        R("C14.channel_close_during_callback", "swarms", "TestC14ChannelClose", 24, 800, race=True, shrink=5, quick=dict(checks=24, shards=4, timeout=900)),
         R("C14.kademlia_concurrent", "kad", "TestC14Cache", 10, 300, race=True, shrink=5),
     ],
 )
